@@ -59,7 +59,7 @@ MapV(q)  == [k |-> "map",   v |-> q]      \* sequence of <<key, value>>
 NoneV    == [k |-> "none",  v |-> 0]
 
 \* The model (harness/replay/mapper.py, class S): partition key (p, q), clustering key c, regular columns
-\* v (stored as "vv", indexed), w, t (text), static column z, collections s set<int>, l list<int>, m map<int,int>.
+\* v (stored as "vv", indexed), w, t (text), x (stored as "Seq"), y (stored as "order"), static column z, collections s set<int>, l list<int>, m map<int,int>.
 \* Counter model SC: partition key p, clustering key c, counter n.
 PartCols == <<"p", "q">>
 KeyP == IntV(1)
@@ -176,11 +176,13 @@ FilterAlphabet == <<
     Rel("q", "q", "=", IntV(12), "part", TRUE),
     Rel("c", "c", "=", IntV(13), "clust", TRUE),
     Rel("c__gt", "c", ">", IntV(14), "clust", FALSE),
-    Rel("c__lte", "c", "<=", IntV(15), "clust", FALSE),
     Rel("c__in", "c", "IN", TupV(<<16, 17>>), "clust", TRUE),
     Rel("v", "vv", "=", IntV(18), "index", TRUE),
     Tok("pk__token__gt", ">", 19, 20),
+    Rel("x__lt", "Seq", "<", IntV(34), "plain", FALSE),          \* stored under a mixed-case name: "Seq" is not Seq
+    Rel("y", "order", "=", IntV(35), "plain", TRUE),            \* stored under a reserved word: only "order" is a column
     Rel("s__contains", "s", "CONTAINS", IntV(21), "plain", TRUE),
+    Rel("c__lte", "c", "<=", IntV(15), "clust", FALSE),
     Rel("v__in", "vv", "IN", TupV(<<>>), "index", TRUE),
     Rel("c__gte", "c", ">=", IntV(22), "clust", FALSE),
     Rel("c__lt", "c", "<", IntV(23), "clust", FALSE),
@@ -224,9 +226,12 @@ MayRefuse(fs, opt) ==
     /\ ~\E i \in 1..Len(fs) : fs[i].key = "token"
     /\ ~\E i \in 1..Len(fs) : fs[i].eq /\ fs[i].key \in {"part", "index"}
 
-SelectCase(fq, o) ==
+\* single: all filters are keyword arguments of ONE filter() call, in this order (FALSE: one filter() call per filter).
+\* Either way every filter is its own clause; a token() comparison before ordinary columns must not change how those render.
+SelectCase(fq, o, single) ==
     LET fs == [i \in 1..Len(fq) |-> FilterAlphabet[fq[i]]] IN
-    [kind |-> "select", filters |-> fs, opt |-> OptProfiles[o]]
+    [kind |-> "select", filters |-> fs, opt |-> OptProfiles[o], single |-> single]
+HasToken(fq) == \E i \in 1..Len(fq) : FilterAlphabet[fq[i]].shape = "token"
 
 SelectReqs(c) == << Req("select", "st", c.filters, <<>>, <<>>, <<>>, <<>>, FALSE, FALSE) >>
 
@@ -496,8 +501,9 @@ Expect(c) ==
 
 Init ==
     \/ \E len \in 0..MaxFilters : \E fq \in FilterSeqs(len) :
-         \E o \in 1..(IF len <= 1 THEN Len(OptProfiles) ELSE NProfLong) :
-            case = SelectCase(fq, o) /\ out = Expect(case)
+         \E o \in 1..(IF len <= 1 THEN Len(OptProfiles) ELSE NProfLong) : \E single \in BOOLEAN :
+            /\ single => len >= 2 /\ (o = 1 \/ HasToken(fq))
+            /\ case = SelectCase(fq, o, single) /\ out = Expect(case)
     \/ \E S \in AssignSets : \E pi \in 1..Len(DmlProfiles) :
             /\ case = QsUpdateCase(S, pi)
             /\ out = Expect(case)
@@ -570,5 +576,9 @@ Witness_SharedConditionsFirstInBatch ==
       /\ Len(out.sent[1].stmts[1].iff) >= 2
       /\ Len(out.sent[1].stmts[2].iff) >= 1 /\ Len(out.sent[1].stmts[2].iff) < Len(out.sent[1].stmts[1].iff)
       /\ out.sent[1].stmts[1].iff[1][1] # out.sent[1].stmts[2].iff[1][1])
+\* one filter() call: a token() comparison FOLLOWED by a column whose stored name needs its quotes
+Witness_TokenThenQuotedName ==
+    ~(case.kind = "select" /\ case.single /\ \E i \in 1..Len(case.filters) : \E j \in 1..Len(case.filters) :
+        i < j /\ case.filters[i].shape = "token" /\ case.filters[j].shape = "rel" /\ case.filters[j].col \in {"Seq", "order"})
 Witness_MayRefuse == ~(case.kind = "select" /\ out.mayrefuse)
 =============================================================================
